@@ -342,4 +342,43 @@ func DischargeAll(obls []*Obligation, timeoutS, workers int) {
 	}
 	close(ch)
 	wg.Wait()
+	// second chance for obligations that only ran out of time (no solver produced a model): a loaded machine must
+	// not turn a slow proof into an alarm. Retried a few at a time with three times the budget; a refuted
+	// obligation is never retried, and at most 12 are (a change that breaks many clauses is reported anyway).
+	var again []*Obligation
+	for _, o := range obls {
+		if o.Status == "unknown" && !o.ExpectSat && o.vc != nil && len(again) < 12 {
+			again = append(again, o)
+		}
+	}
+	if len(again) == 0 {
+		return
+	}
+	ch2 := make(chan *Obligation)
+	for w := 0; w < 4; w++ {
+		wg.Add(1)
+		go func() {
+			defer wg.Done()
+			for o := range ch2 {
+				first := o.Output
+				o.Status, o.Output = "", ""
+				Discharge(o, timeoutS*3)
+				if o.Status == "unknown" {
+					o.Output = first + "\n-- retried with " + fmt.Sprint(timeoutS*3) + "s --\n" + o.Output
+				}
+			}
+		}()
+	}
+	for _, o := range again {
+		ch2 <- o
+	}
+	close(ch2)
+	wg.Wait()
+	ok := 0
+	for _, o := range again {
+		if o.Status == "proved" {
+			ok++
+		}
+	}
+	fmt.Printf("retry: %d obligation(s) ran out of time, %d proved with %ds\n", len(again), ok, timeoutS*3)
 }
